@@ -17,6 +17,7 @@ CHECKS = {
     'C11': 'harness.c11',
     'C05': 'harness.c05',
     'C06': 'harness.c06',
+    'C07': 'harness.c07',
     'C10': 'harness.c10',
     'C12': 'harness.c12',
 }
